@@ -154,3 +154,118 @@ fn verif_native_c08_deformation_selection() {
     }
     assert!(fails.is_empty(), "C08.N.deformation.selection: FAILSET{{{}}} {} of {} evaluations wrong, first: {:?}", ids.join(","), fails.len(), n, &fails[..fails.len().min(4)]);
 }
+
+//@n {"id":"C02.N.independence","props":["C02"],"tier":"quick","bound":"40 operator definitions (projections, cart, static and 14-parameter helmert, molodensky, latitude, permtide, adapt/axisswap/unitconvert, dm, stack pipelines, gridshift and deformation over two overlapping generated grids) x both directions x a 60-tuple set with mixed epochs (incl. the reference epoch and NaN), out-of-domain members, NaN members and duplicates; through Plain","text":"transforming a set gives bit-identical per-tuple results to transforming every tuple alone, in reversed order, and in chunks of 7; the success count of the whole equals the sum over its parts; repeating the transformation on a fresh copy gives the same result (operators are immutable)"}
+#[test]
+fn verif_native_c02_independence() {
+    setup();
+    let mut ctx = Plain::default();
+    let defs = [
+        "merc lat_ts=56 lon_0=9 x_0=1000", "webmerc", "tmerc k_0=0.9996 lon_0=9 x_0=500000", "utm zone=32", "utm zone=32 south", "btmerc lon_0=9", "butm zone=32",
+        "lcc lat_1=33 lat_2=45 lat_0=35 lon_0=10 x_0=12345 y_0=67890 k_0=0.99", "lcc lat_1=57 lon_0=12", "laea lat_0=52 lon_0=10 x_0=4321000 y_0=3210000", "laea lat_0=90", "laea",
+        "somerc lat_0=46.9524055555556 lon_0=7.43958333333333 k_0=1 x_0=2600000 y_0=1200000 ellps=bessel",
+        "omerc ellps=evrstSS variant x_0=590476.87 y_0=442857.65 latc=4 lonc=115 k_0=0.99984 alpha=53:18:56.9537 gamma_c=53:07:48.3685",
+        "cart", "cart ellps=intl", "helmert x=-87 y=-96 z=-120", "helmert convention=coordinate_frame x=0.06155 rx=-0.0394924 y=-0.01087 ry=-0.0327221 z=-0.04019 rz=-0.0328979 s=-0.009994 exact",
+        "helmert convention=position_vector x=0.06155 rx=0.5 y=-0.01087 ry=-0.3 z=-0.04019 rz=0.2 s=-0.009994 dx=0.001 dy=0.002 dz=-0.001 drx=0.01 dry=0.02 drz=-0.01 ds=0.001 t_epoch=2010",
+        "helmert x=1 dx=0.5 ds=0.1 t_epoch=2010", "helmert x=1 dx=0.5 ds=0.1 t_epoch=2010 t_obs=2020",
+        "molodensky ellps_0=WGS84 ellps_1=intl dx=84.87 dy=96.49 dz=116.95", "latitude geocentric ellps=GRS80", "latitude conformal ellps=GRS80", "permtide from=mean to=zero ellps=GRS80",
+        "adapt from=neuf_deg", "adapt from=seuf_gon to=wnuf", "axisswap order=2,-1,3", "unitconvert xy_in=us-ft z_in=ft", "dm", "dms", "noop", "addone",
+        "stack push=1,2 | addone | stack pop=2,1", "stack push=3 | cart | stack flip=3 | stack pop=3", "push v_1 v_2 | addone | pop v_1 v_2",
+        "gridshift grids=verif_a.datum, verif_b.datum", "gridshift grids=verif_b.datum, verif_a.datum, @null", "deformation dt=1 grids=verif_a.deformation, verif_b.deformation", "cart | helmert x=100 dx=1 t_epoch=2010 | cart inv",
+    ];
+    // the set: points around the generated grids, globally, projected-size, with mixed epochs
+    let mut set: Vec<Coor4D> = Vec::new();
+    let epochs = [2010.0, 2020.5, 2010.0, f64::NAN, 1999.0, 2020.5];
+    let mut k = 0;
+    for (lat, lon) in [(56.0, 11.0), (54.5, 9.0), (57.25, 11.0), (56.0, 11.0), (40.0, 0.0), (58.25, 9.0), (-33.0, 151.0), (89.0, -170.0), (0.0, 0.0), (54.5, 9.0)] {
+        for h in [0.0, 1234.5] {
+            set.push(Coor4D::geo(lat, lon, h, epochs[k % 6]));
+            k += 1;
+        }
+    }
+    for (x, y) in [(500000.0, 6000000.0), (2600000.0, 1200000.0), (-3.0e7, 1.0e6), (4321000.0, 3210000.0), (3.9e6, 8.0e5)] {
+        for z in [0.0, 4.9e6] {
+            set.push(Coor4D([x, y, z, epochs[k % 6]]));
+            k += 1;
+        }
+    }
+    for s in [f64::NAN, f64::INFINITY, 1e300] {
+        set.push(Coor4D([s, 0.5, 0.0, 2010.0]));
+        set.push(Coor4D([0.2, 0.9, s, 2020.5]));
+    }
+    while set.len() < 60 {
+        let c = set[set.len() % 7];
+        set.push(c);
+    }
+    let bits = |c: &Coor4D| [c[0].to_bits(), c[1].to_bits(), c[2].to_bits(), c[3].to_bits()];
+    let nan_eq = |a: &Coor4D, b: &Coor4D| (0..4).all(|i| a[i].to_bits() == b[i].to_bits() || (a[i].is_nan() && b[i].is_nan()));
+    let mut fails = Vec::new();
+    let mut ids = Vec::new();
+    let mut n = 0;
+    for (di, def) in defs.iter().enumerate() {
+        let op = match ctx.op(def) {
+            Ok(op) => op,
+            Err(e) => {
+                ids.push(format!("{di}c"));
+                fails.push(format!("`{def}`: {e:?}"));
+                continue;
+            }
+        };
+        for dir in [Fwd, Inv] {
+            let d = if dir == Fwd { "F" } else { "I" };
+            let dirf = || if d == "F" { Fwd } else { Inv };
+            let mut whole = set.clone();
+            let r_whole = ctx.apply(op, dirf(), &mut whole).unwrap();
+            // singletons
+            let mut r_sum = 0;
+            let mut bad: Option<String> = None;
+            for (i, c) in set.iter().enumerate() {
+                let mut one = [*c];
+                r_sum += ctx.apply(op, dirf(), &mut one).unwrap();
+                n += 1;
+                if !nan_eq(&one[0], &whole[i]) && bad.is_none() {
+                    bad = Some(format!("tuple {i} {:?}: alone {:?}, in the set {:?}", c, one[0], whole[i]));
+                }
+            }
+            // reversed order
+            let mut rev: Vec<Coor4D> = set.iter().rev().cloned().collect();
+            let r_rev = ctx.apply(op, dirf(), &mut rev).unwrap();
+            rev.reverse();
+            if bad.is_none() {
+                if let Some(i) = (0..set.len()).find(|i| !nan_eq(&rev[*i], &whole[*i])) {
+                    bad = Some(format!("tuple {i}: in reversed order {:?}, in order {:?}", rev[i], whole[i]));
+                }
+            }
+            // chunks of 7
+            let mut chunked = set.clone();
+            let mut r_chunks = 0;
+            for ch in chunked.chunks_mut(7) {
+                let mut s: &mut [Coor4D] = ch;
+                r_chunks += ctx.apply(op, dirf(), &mut s).unwrap();
+            }
+            if bad.is_none() {
+                if let Some(i) = (0..set.len()).find(|i| !nan_eq(&chunked[*i], &whole[*i])) {
+                    bad = Some(format!("tuple {i}: in chunks {:?}, whole {:?}", chunked[i], whole[i]));
+                }
+            }
+            // again on a fresh copy
+            let mut again = set.clone();
+            let r_again = ctx.apply(op, dirf(), &mut again).unwrap();
+            if bad.is_none() && (0..set.len()).any(|i| bits(&again[i]) != bits(&whole[i]) && !(nan_eq(&again[i], &whole[i]))) {
+                bad = Some("second application on a fresh copy differs".to_string());
+            }
+            let stackish = def.contains("stack") || def.contains("push");
+            if bad.is_none() && !stackish && !(r_whole == r_sum && r_whole == r_chunks) {
+                bad = Some(format!("counts: whole {r_whole}, sum of singletons {r_sum}, sum of chunks {r_chunks}"));
+            }
+            if bad.is_none() && (r_whole != r_rev || r_whole != r_again) {
+                bad = Some(format!("counts: whole {r_whole}, reversed {r_rev}, again {r_again}"));
+            }
+            if let Some(b) = bad {
+                ids.push(format!("{di}{d}"));
+                fails.push(format!("`{def}` {d}: {b}"));
+            }
+        }
+    }
+    assert!(fails.is_empty(), "C02.N.independence: FAILSET{{{}}} {} of {} operator/direction pairs fail over {} singleton comparisons, first: {:?}", ids.join(","), fails.len(), 2 * defs.len(), n, &fails[..fails.len().min(6)]);
+}
